@@ -1,46 +1,68 @@
 ---------------------------- MODULE MC_IOStreams ----------------------------
 (* Exhaustive check of the C12 and C13 invariants on IOStreams over all      *)
-(* histories of at most Depth actions, for every configuration in Cfgs.      *)
+(* histories of at most Depth actions, for every configuration in Cfgs, and  *)
+(* over all sessions of at most MaxRuns such runs on one Interpreter, each   *)
+(* run with a configuration of its own (C12: the flags and the open-file     *)
+(* function in force are those of the current Execute).                      *)
 EXTENDS IOStreams, Json
 
 CONSTANT Depth,        \* actions before the ending
          Sandbox,      \* TRUE: all 8 flag sets x custom open (C12);  FALSE: flags off (C13)
-         FailMax       \* C13: the stdout writer fails at offsets 0..FailMax (and never), plain and buffered
+         FailMax,      \* C13: the stdout writer fails at offsets 0..FailMax (and never), plain and buffered,
+                       \*      in every output mode
+         MaxRuns,      \* Execute calls on one Interpreter
+         Modes         \* C13: the output modes (a subset of OModes)
 
 ASSUME PrintT(ToJson([callsites |-> CallSites]))
 
 MFiles == {"f1", "f2"}
 Cfgs ==
   IF Sandbox
-  THEN {[ne |-> a, nw |-> b, nr |-> c, custom |-> d, failAt |-> 0 - 1, buffered |-> FALSE, stdin |-> << <<c_s>> >>, pre |-> {"f1"}] :
+  THEN {[ne |-> a, nw |-> b, nr |-> c, custom |-> d, failAt |-> 0 - 1, wkind |-> "plain", omode |-> "default",
+          stdin |-> << <<c_s>> >>, pre |-> {"f1"}] :
           a \in BOOLEAN, b \in BOOLEAN, c \in BOOLEAN, d \in BOOLEAN}
-  ELSE {[ne |-> FALSE, nw |-> FALSE, nr |-> FALSE, custom |-> TRUE, failAt |-> k, buffered |-> b, stdin |-> <<>>, pre |-> {"f1"}] :
-          k \in (0 - 1)..FailMax, b \in BOOLEAN}
+  ELSE {[ne |-> FALSE, nw |-> FALSE, nr |-> FALSE, custom |-> TRUE, failAt |-> k, wkind |-> w, omode |-> m, stdin |-> <<>>, pre |-> {"f1"}] :
+          k \in (0 - 1)..FailMax, w \in {"plain", "bufio16"}, m \in Modes}
 
-TheMenu == IF Sandbox THEN Menu(MFiles, {"lit"}, {"print"}) ELSE Menu(MFiles, {"lit"}, {"print", "printf"})
+TheMenu == IF Sandbox THEN Menu(MFiles, {"lit"}, {"print"})
+           ELSE Menu(MFiles, {"lit"}, {"print", "printf"}) \cup ExtraMenu({"lit"})
 
-VARIABLES st, cfg, last
-vars == <<st, cfg, last>>
+VARIABLES st, cfg, last, run
+vars == <<st, cfg, last, run>>
 \* last = the action just taken and what the state before it looked like (for AttemptIsDenied)
-NoLast == [act |-> [op |-> "none"], no |-> 0, np |-> 0, busy |-> FALSE]
+NoLast == [act |-> [op |-> "none"], no |-> 0, np |-> 0, busy |-> FALSE, pid |-> 0]
 
-Init == \E c \in Cfgs : cfg = c /\ st = InitState(c) /\ last = NoLast
+Init == \E c \in Cfgs : cfg = c /\ st = InitState(c) /\ last = NoLast /\ run = 1
 
 Busy(act) == IF act.op \in {"finish", "exit", "rterror"} \/ act.name \notin SNames THEN FALSE
              ELSE st.ins[act.name].open \/ st.outs[act.name].open
 
-Step(act) == /\ Enabled(st, act)
-             /\ (act \notin Endings => st.step < Depth)
-             /\ st' = Apply(st, act)
-             /\ last' = [act |-> act, no |-> Len(st.opens), np |-> Len(st.procs), busy |-> Busy(act)]
-             /\ UNCHANGED cfg
+\* runs after the first are one action shorter (what they add is the change of configuration and the
+\* file system left by their predecessor, not longer histories)
+RunDepth == IF run = 1 THEN Depth ELSE Depth - 1
 
-Next == \E act \in TheMenu \cup Endings : Step(act)
+Step(act) == /\ Enabled(st, act)
+             /\ (act \notin Endings => st.step < RunDepth)
+             /\ st' = Apply(st, act)
+             /\ last' = [act |-> act, no |-> Len(st.opens), np |-> Len(st.procs), busy |-> Busy(act),
+                          pid |-> IF Busy(act) /\ st.outs[act.name].open THEN st.outs[act.name].pid ELSE 0]
+             /\ UNCHANGED <<cfg, run>>
+
+\* the next Execute on the same Interpreter, with any configuration
+NewRun == /\ st.result # "run" /\ run < MaxRuns
+          /\ \E c \in Cfgs : cfg' = c /\ st' = NextRun(st, c)
+          /\ last' = NoLast /\ run' = run + 1
+
+Next == (\E act \in TheMenu \cup Endings : Step(act)) \/ NewRun
 Spec == Init /\ [][Next]_vars
 
 OpenModes(m) == {k \in 1..Len(st.opens) : st.opens[k].mode \in m}
 
 \* ------------------------------------------------------------------- C12
+\* the flags and the open-file function in force are those of the Config of the current Execute
+ConfigIsThisRuns == st.flags = [ne |-> cfg.ne, nw |-> cfg.nw, nr |-> cfg.nr] /\ st.custom = cfg.custom
+\* every run starts with nothing open, nothing started, nothing logged
+RunStartsFresh == st.step = 0 => (st.procs = <<>> /\ st.opens = <<>> /\ \A n \in SNames : ~st.outs[n].open /\ ~st.ins[n].open)
 NoExecConfines   == st.flags.ne => st.procs = <<>>
 NoWritesConfines == st.flags.nw => (OpenModes({"trunc", "append"}) = {} /\ st.fsys = st.fsys0)
 NoReadsConfines  == st.flags.nr => (OpenModes({"read"}) = {} /\ st.everRead = {})
@@ -70,7 +92,8 @@ FileDelivered ==
     /\ Ended => ~st.outs[n].open
 CmdDelivered ==
   \A k \in 1..Len(st.procs) :
-    /\ st.procs[k].kind = "out" /\ st.procs[k].done => st.procs[k].fed = st.procs[k].written
+    /\ (st.procs[k].kind = "out" /\ st.procs[k].done /\ Reads(st.procs[k].cmd)) => st.procs[k].fed = st.procs[k].written
+    /\ ~Reads(st.procs[k].cmd) => st.procs[k].fed = <<>>        \* nothing reaches a command that does not read
     /\ Ended => st.procs[k].done /\ st.procs[k].hi >= st.procs[k].lo
 StdoutDelivered ==
   /\ st.swritten = (IF st.sfail THEN st.swritten ELSE st.sdel \o st.sbuf)
@@ -80,7 +103,22 @@ OneNameOneStream ==
   /\ \A n \in SNames : ~(st.outs[n].open /\ st.ins[n].open)
   /\ \A c \in Cmds : Cardinality({k \in 1..Len(st.procs) : st.procs[k].cmd = c /\ ~st.procs[k].done}) <= 1
 CloseReportsStatus ==
-  \A k \in 1..Len(st.notes) : (st.notes[k].k = "close" /\ st.notes[k].j) => st.notes[k].v \in {Status(c) : c \in Cmds}
+  \A k \in 1..Len(st.notes) : (st.notes[k].k = "close" /\ st.notes[k].j) => st.notes[k].v \in {Status(c) : c \in OutCmds}
+\* close() of a command that does not read still reports its exit status (never "not open", never a flush failure)
+CloseOfNonReader ==
+  (last.act.op = "close" /\ last.busy /\ last.act.name \in NoReadCmds) =>
+     (st.notes[Len(st.notes)].v = Status(last.act.name) /\ st.notes[Len(st.notes)].j /\ st.procs[last.pid].done)
+\* a system() child finds every open output stream flushed: a child that shows file f1 shows everything the
+\* program has written to it so far, and its output lies exactly between the program's output before and after
+SystemSeesFlushed ==
+  (last.act.op = "system" /\ ~st.denied) =>
+     /\ \A n \in SNames : st.outs[n].open => st.outs[n].buf = <<>>
+     /\ st.sbuf = <<>>
+     /\ last.act.name \in FileCmds =>
+          LET pr == st.procs[Len(st.procs)]
+          IN /\ pr.sysout = (IF st.fsys["f1"].ex THEN st.fsys["f1"].c ELSE <<>>)
+             /\ st.wr["f1"].used /\ st.outs["f1"].open => pr.sysout = st.wr["f1"].base \o st.wr["f1"].data
+             /\ pr.lo = pr.hi /\ pr.done
 \* the schedule "every child writes when it is waited for" is always one of the allowed outputs
 SeqScheduleAllowed ==
   (Ended /\ ~st.sfail) => IsAllowedStdout(SeqSchedule(st.sdel, KidSeq(st), 0), st.sdel, KidSeq(st))
